@@ -22,6 +22,12 @@ package main
 //                       element an EARLIER argument reads; user functions: exact oracle (each argument is the value
 //                       it had when it was evaluated, left to right); printf / methods / array and object literals /
 //                       print lists: model comparison only (the property speaks about calls of user functions)
+//   argument-recursion  call sites with 2-4 arguments of which a non-first (or any) argument recurses through the
+//                       SAME call site (comb(n, rec(n - 1)), Ackermann's shape, mutual recursion), evaluated for several
+//                       records; exact values from Go, the same record gives the same line whatever ran before
+//   match-failed-array-case  an array pattern that binds names and then fails on a later element, followed by an
+//                       alternative / case whose body reads and assigns an OUTER variable of the same name (global,
+//                       parameter, loop variable); exact output from Go and the -o document unchanged
 
 import (
 	"fmt"
@@ -1703,6 +1709,668 @@ func init() {
 				for v := 0; v < 5; v++ {
 					c08Long(r, n, v, false, emit)
 				}
+			}
+		},
+	})
+}
+
+// ---------------------------------------------------------------- argument-recursion
+
+// A call site with two or more arguments, one (or two) of which recurse(s) through the SAME call
+// site, evaluated for several records. The value is position-sensitive, so that an outer call
+// that binds what an inner call evaluated shows.
+
+// an integer expression over n and the other parameters q1..q3 (env[0] = n)
+type c08RExpr struct {
+	text string
+	f    func(env []int) int
+}
+
+func c08RSimple(r *rand.Rand, names []string) c08RExpr {
+	i := r.Intn(len(names))
+	nm := names[i]
+	switch r.Intn(6) {
+	case 0:
+		return c08RExpr{nm, func(e []int) int { return e[i] }}
+	case 1:
+		return c08RExpr{nm + " + 1", func(e []int) int { return e[i] + 1 }}
+	case 2:
+		return c08RExpr{nm + " * 2 % 1000", func(e []int) int { return e[i] * 2 % 1000 }}
+	case 3:
+		k := 2 + r.Intn(8)
+		return c08RExpr{strconv.Itoa(k), func(e []int) int { return k }}
+	case 4:
+		j := r.Intn(len(names))
+		return c08RExpr{"(" + nm + " + " + names[j] + ") % 1000", func(e []int) int { return (e[i] + e[j]) % 1000 }}
+	}
+	return c08RExpr{"n", func(e []int) int { return e[0] }}
+}
+
+var c08RWeights = []int{1, 2, 3, 5}
+
+// c08RecCombine: rec(n) = comb(.., rec(n - 1), ..) -- the witness's shape. Returns the program
+// text up to the rules and the function computing rec. In string mode comb joins its parameters
+// with commas, so that the result spells out which argument was bound where.
+func c08RecCombine(r *rand.Rand) (decl, fname, desc string, eval func(n int) string, maxN int) {
+	arity := 2 + r.Intn(3)
+	// the positions of the recursive argument(s)
+	recAt := map[int]bool{r.Intn(arity): true}
+	if chance(r, 0.6) {
+		recAt = map[int]bool{1 + r.Intn(arity-1): true} // mostly not the first
+	}
+	if chance(r, 0.2) {
+		recAt[r.Intn(arity)] = true
+	}
+	maxN = 6
+	if len(recAt) > 1 {
+		maxN = 4
+	}
+	strMode := chance(r, 0.4)
+	params := []string{"a", "b", "c", "d"}[:arity]
+	args := make([]c08RExpr, arity)
+	var texts, pos []string
+	for i := range args {
+		if recAt[i] {
+			texts = append(texts, "rec(n - 1)")
+			pos = append(pos, strconv.Itoa(i))
+			continue
+		}
+		args[i] = c08RSimple(r, []string{"n"})
+		texts = append(texts, args[i].text)
+	}
+	var body string
+	if strMode {
+		body = "return " + strings.Join(params, ` + "," + `)
+	} else {
+		var ps []string
+		for i, p := range params {
+			ps = append(ps, fmt.Sprintf("%s * %d", p, c08RWeights[i]))
+		}
+		body = "return " + strings.Join(ps, " + ")
+	}
+	base := 1 + r.Intn(3)
+	guard := pick(r, []string{"if (n <= 0) return %d\n  ", "if (n <= 0) { return %d }\n  "})
+	decl = fmt.Sprintf("function comb(%s) { %s }\nfunction rec(n) {\n  "+guard+"return comb(%s)\n}\n", strings.Join(params, ", "), body, base, strings.Join(texts, ", "))
+	var num func(n int) int
+	var str func(n int) string
+	num = func(n int) int {
+		if n <= 0 {
+			return base
+		}
+		s := 0
+		for i := range args {
+			v := 0
+			if recAt[i] {
+				v = num(n - 1)
+			} else {
+				v = args[i].f([]int{n})
+			}
+			s += v * c08RWeights[i]
+		}
+		return s
+	}
+	str = func(n int) string {
+		if n <= 0 {
+			return strconv.Itoa(base)
+		}
+		parts := make([]string, arity)
+		for i := range args {
+			if recAt[i] {
+				parts[i] = str(n - 1)
+			} else {
+				parts[i] = strconv.Itoa(args[i].f([]int{n}))
+			}
+		}
+		return strings.Join(parts, ",")
+	}
+	eval = func(n int) string {
+		if strMode {
+			return str(n)
+		}
+		return strconv.Itoa(num(n))
+	}
+	return decl, "rec", fmt.Sprintf("comb/%d, rec(n - 1) at position %s", arity, strings.Join(pos, "+")), eval, maxN
+}
+
+// c08RecSelf: sr(n, q..) = sr(n - 1, .., sr(n - 2, ..), ..) -- the outer call site is re-entered
+// while one of its own arguments is evaluated (Ackermann's shape)
+func c08RecSelf(r *rand.Rand) (decl, fname, desc string, eval func(n int) string, maxN int) {
+	arity := 2 + r.Intn(3)
+	names := []string{"n", "q1", "q2", "q3"}[:arity]
+	at := 1 + r.Intn(arity-1)
+	outer := make([]c08RExpr, arity)
+	inner := make([]c08RExpr, arity)
+	var ot, it []string
+	for i := 1; i < arity; i++ {
+		outer[i] = c08RSimple(r, names)
+		inner[i] = c08RSimple(r, names)
+	}
+	for i := 1; i < arity; i++ {
+		it = append(it, inner[i].text)
+	}
+	for i := 1; i < arity; i++ {
+		if i == at {
+			ot = append(ot, "sr(n - 2, "+strings.Join(it, ", ")+")")
+		} else {
+			ot = append(ot, outer[i].text)
+		}
+	}
+	var bs []string
+	for i := 1; i < arity; i++ {
+		bs = append(bs, fmt.Sprintf("%s * %d", names[i], c08RWeights[i]))
+	}
+	decl = fmt.Sprintf("function sr(%s) {\n  if (n <= 0) return (%s) %% 1000\n  return sr(n - 1, %s)\n}\n", strings.Join(names, ", "), strings.Join(bs, " + "), strings.Join(ot, ", "))
+	var f func(env []int) int
+	f = func(env []int) int {
+		if env[0] <= 0 {
+			s := 0
+			for i := 1; i < arity; i++ {
+				s += env[i] * c08RWeights[i]
+			}
+			return s % 1000
+		}
+		next := make([]int, arity)
+		next[0] = env[0] - 1
+		for i := 1; i < arity; i++ {
+			if i == at {
+				in := make([]int, arity)
+				in[0] = env[0] - 2
+				for j := 1; j < arity; j++ {
+					in[j] = inner[j].f(env)
+				}
+				next[i] = f(in)
+			} else {
+				next[i] = outer[i].f(env)
+			}
+		}
+		return f(next)
+	}
+	start := []int{0, 1 + r.Intn(3), 2 + r.Intn(3), 1 + r.Intn(4)}[:arity]
+	var st []string
+	for _, v := range start[1:] {
+		st = append(st, strconv.Itoa(v))
+	}
+	decl += fmt.Sprintf("function top(n) { return sr(n, %s) }\n", strings.Join(st, ", "))
+	eval = func(n int) string {
+		env := append([]int{n}, start[1:]...)
+		return strconv.Itoa(f(env))
+	}
+	return decl, "top", fmt.Sprintf("self-recursive sr/%d, inner call at position %d", arity, at), eval, 6
+}
+
+// c08RecMutual: a(n, x) = b(x, a(n - 1, ..)) through a second function that calls back
+func c08RecMutual(r *rand.Rand) (decl, fname, desc string, eval func(n int) string, maxN int) {
+	e1, e2 := c08RSimple(r, []string{"n", "x"}), c08RSimple(r, []string{"n", "x"})
+	swap := chance(r, 0.5)
+	call := fmt.Sprintf("pb(%s, pa(n - 1, %s), n)", e1.text, e2.text)
+	if swap {
+		call = fmt.Sprintf("pb(pa(n - 1, %s), %s, n)", e2.text, e1.text)
+	}
+	decl = fmt.Sprintf("function pa(n, x) {\n  if (n <= 0) return x\n  return %s\n}\nfunction pb(u, v, n) {\n  if (n %% 2 == 0) return pa(0, u * 2 + v * 3)\n  return u * 5 + v * 7\n}\nfunction top(n) { return pa(n, 1) }\n", call)
+	var pa func(n, x int) int
+	pb := func(u, v, n int) int {
+		if n%2 == 0 {
+			return u*2 + v*3
+		}
+		return u*5 + v*7
+	}
+	pa = func(n, x int) int {
+		if n <= 0 {
+			return x
+		}
+		env := []int{n, x}
+		in := pa(n-1, e2.f(env))
+		if swap {
+			return pb(in, e1.f(env), n)
+		}
+		return pb(e1.f(env), in, n)
+	}
+	return decl, "top", "mutual recursion pa -> pb(.., pa(..), ..)", func(n int) string { return strconv.Itoa(pa(n, 1)) }, 6
+}
+
+func c08ArgRecursion(r *rand.Rand, emit func(Case)) {
+	var decl, fname, desc string
+	var eval func(int) string
+	var maxN int
+	switch k := r.Intn(10); {
+	case k < 5:
+		decl, fname, desc, eval, maxN = c08RecCombine(r)
+	case k < 8:
+		decl, fname, desc, eval, maxN = c08RecSelf(r)
+	default:
+		decl, fname, desc, eval, maxN = c08RecMutual(r)
+	}
+	nrec := 2 + r.Intn(7)
+	recs := make([]string, nrec)
+	var want strings.Builder
+	var ns []int
+	for i := range recs {
+		n := r.Intn(maxN + 1)
+		if i > 0 && chance(r, 0.3) {
+			n = ns[r.Intn(len(ns))] // the same depth again
+		}
+		ns = append(ns, n)
+		recs[i] = strconv.Itoa(n)
+	}
+	var rules string
+	switch r.Intn(4) {
+	case 0:
+		rules = fmt.Sprintf("{ print \"R\", $, %s($) }\n", fname)
+		for _, n := range ns {
+			fmt.Fprintf(&want, "R %d %s\n", n, eval(n))
+		}
+	case 1:
+		// twice per record, the second through a variable
+		rules = fmt.Sprintf("{ v = %s($); print \"R\", $, v, %s($) }\n", fname, fname)
+		for _, n := range ns {
+			fmt.Fprintf(&want, "R %d %s %s\n", n, eval(n), eval(n))
+		}
+	case 2:
+		// in the pattern and in the body
+		rules = fmt.Sprintf("%s($) != null { print \"R\", $, %s($) }\n", fname, fname)
+		for _, n := range ns {
+			fmt.Fprintf(&want, "R %d %s\n", n, eval(n))
+		}
+	default:
+		// all in BEGIN, from a loop over an array literal
+		rules = fmt.Sprintf("BEGIN { for (k in [%s]) print \"R\", k, %s(k) }\n", strings.Join(recs, ", "), fname)
+		for _, n := range ns {
+			fmt.Fprintf(&want, "R %d %s\n", n, eval(n))
+		}
+	}
+	k := r.Intn(maxN + 1)
+	rules += fmt.Sprintf("END { print \"E\", %s(%d), %s(%d) }\n", fname, k, fname, k)
+	fmt.Fprintf(&want, "E %s %s\n", eval(k), eval(k))
+	prog := decl + rules
+	doc := "[" + strings.Join(recs, ",") + "]"
+	exact := c08OutOracle(want.String(), "ok")
+	emit(Case{Req: RunReq(prog, nil, []File{{Name: "in.json", Data: []byte(doc)}}, false), Fields: c08Fields,
+		Meta: metaProg(prog, "input", doc, "shape", desc, "row", strings.SplitN(desc, ",", 2)[0]),
+		Oracle: func(i Resp) string {
+			// history independence first: the same record value must print the same line
+			seen := map[string]string{}
+			for _, l := range strings.Split(string(i.Bytes("out")), "\n") {
+				f := strings.SplitN(l, " ", 3)
+				if len(f) == 3 && f[0] == "R" {
+					if prev, ok := seen[f[1]]; ok && prev != f[2] {
+						return fmt.Sprintf("%s(%s) gave %s for an earlier record and %s for a later one: a finished call left something behind at the call site", fname, f[1], prev, f[2])
+					}
+					seen[f[1]] = f[2]
+				}
+			}
+			return exact(i)
+		}})
+}
+
+func init() {
+	register(Family{
+		Name: "argument-recursion", Prop: "C08",
+		Rule: "a call site with 2-4 arguments of which one (sometimes two), in every position, recurses through the SAME call site: rec(n) = comb(.., rec(n - 1), ..) with a position-weighted sum or a comma-joined string as comb; a self-recursive sr(n, q..) = sr(n - 1, .., sr(n - 2, ..), ..) (Ackermann's shape); mutual recursion pa -> pb(.., pa(..), ..); depth 0-6; evaluated for 2-8 records (rule body, twice per record, in pattern and body, from a BEGIN loop) with repeated depths, and twice in END. Oracle (implementation only): the value computed in Go with arguments bound by position, the same record value gives the same line whatever was called before, depth 0; model comparison on class, out, depth",
+		Gen: func(r *rand.Rand, tier string, emit func(Case)) {
+			// the witness of the seeded change
+			prog := "function add(a, b) { return a + b }\nfunction sum(n) {\n  if (n == 0) return 0\n  return add(n, sum(n - 1))\n}\n{ print sum($) }\n"
+			emit(Case{Req: RunReq(prog, nil, []File{{Name: "in.json", Data: []byte("[3, 3, 4, 4, 1]")}}, false), Fields: c08Fields,
+				Meta: metaProg(prog, "input", "[3, 3, 4, 4, 1]"), Oracle: c08OutOracle("6\n6\n10\n10\n1\n", "ok")})
+			prog = "function ack(m, n) {\n  if (m == 0) return n + 1\n  if (n == 0) return ack(m - 1, 1)\n  return ack(m - 1, ack(m, n - 1))\n}\n{ print ack($[0], $[1]) }\n"
+			emit(Case{Req: RunReq(prog, nil, []File{{Name: "in.json", Data: []byte("[[2,2],[1,3],[2,2],[2,3],[0,0],[2,1]]")}}, false), Fields: c08Fields,
+				Meta: metaProg(prog, "input", "[[2,2],[1,3],[2,2],[2,3],[0,0],[2,1]]"), Oracle: c08OutOracle("7\n5\n7\n9\n1\n5\n", "ok")})
+			for i, n := 0, tierN(tier, 2500, 40000); i < n; i++ {
+				c08ArgRecursion(r, emit)
+			}
+		},
+	})
+}
+
+// ---------------------------------------------------------------- match-failed-array-case
+
+// An array pattern that binds names from its first elements and then FAILS on a later element
+// (same length as the subject), followed by an alternative or a case that matches and whose body
+// reads / assigns an OUTER variable of the same name (a global, a parameter, a loop variable).
+
+type c08MBind struct{ name string }
+
+func c08MPatText(p any) string {
+	switch x := p.(type) {
+	case c08MBind:
+		return x.name
+	case int:
+		return strconv.Itoa(x)
+	case string:
+		return `"` + x + `"`
+	case []any:
+		parts := make([]string, len(x))
+		for i, e := range x {
+			parts[i] = c08MPatText(e)
+		}
+		return "[" + strings.Join(parts, ", ") + "]"
+	}
+	return "?"
+}
+
+func c08MJSON(v any) string {
+	switch x := v.(type) {
+	case int:
+		return strconv.Itoa(x)
+	case string:
+		return `"` + x + `"`
+	case []any:
+		parts := make([]string, len(x))
+		for i, e := range x {
+			parts[i] = c08MJSON(e)
+		}
+		return "[" + strings.Join(parts, ",") + "]"
+	}
+	return "null"
+}
+
+// c08MShow: how print shows the value at top level
+func c08MShow(v any) string {
+	switch x := v.(type) {
+	case string:
+		return x
+	case []any:
+		parts := make([]string, len(x))
+		for i, e := range x {
+			parts[i] = c08MJSON(e)
+		}
+		return "[" + strings.Join(parts, ", ") + "]"
+	}
+	return c08MJSON(v)
+}
+
+// c08MMatch: does the pattern match the value, and what does it bind
+func c08MMatch(p any, v any, b map[string]any) bool {
+	switch x := p.(type) {
+	case c08MBind:
+		b[x.name] = v
+		return true
+	case int:
+		n, ok := v.(int)
+		return ok && n == x
+	case string:
+		s, ok := v.(string)
+		return ok && s == x
+	case []any:
+		a, ok := v.([]any)
+		if !ok || len(a) != len(x) {
+			return false
+		}
+		for i := range x {
+			if !c08MMatch(x[i], a[i], b) {
+				return false
+			}
+		}
+		return true
+	}
+	return false
+}
+
+type c08MBody struct {
+	text string
+	run  func(n, m *int, out *strings.Builder)
+}
+
+var c08MBodies = []c08MBody{
+	{"{ n = n + 1 }", func(n, m *int, o *strings.Builder) { *n++ }},
+	{"{ n += 10; print \"B\", n }", func(n, m *int, o *strings.Builder) { *n += 10; fmt.Fprintf(o, "B %d\n", *n) }},
+	{"{ n++ }", func(n, m *int, o *strings.Builder) { *n++ }},
+	{"{ print \"B\", n, m }", func(n, m *int, o *strings.Builder) { fmt.Fprintf(o, "B %d %d\n", *n, *m) }},
+	{"{ m = n; n = n * 2 }", func(n, m *int, o *strings.Builder) { *m = *n; *n *= 2 }},
+	{"{ m = m + n }", func(n, m *int, o *strings.Builder) { *m += *n }},
+	{"{ m++; n = m }", func(n, m *int, o *strings.Builder) { *m++; *n = *m }},
+	{"{ if (n > 0) { n = n + 3 } else { n = 1 } }", func(n, m *int, o *strings.Builder) {
+		if *n > 0 {
+			*n += 3
+		} else {
+			*n = 1
+		}
+	}},
+}
+
+func c08MatchFailed(r *rand.Rand, emit func(Case)) {
+	shape := r.Intn(4) // 0: [k, s]; 1: [k, j, s]; 2: [[k, j], s]; 3: [k, [j, s]]
+	var pat any
+	lastLit := pick(r, []string{"x", "x", "w"})
+	switch shape {
+	case 0:
+		pat = []any{c08MBind{"n"}, lastLit}
+	case 1:
+		mid := any(c08MBind{"m"})
+		if chance(r, 0.3) {
+			mid = 7
+		}
+		pat = []any{c08MBind{"n"}, mid, lastLit}
+	case 2:
+		pat = []any{[]any{c08MBind{"n"}, c08MBind{"m"}}, lastLit}
+	default:
+		pat = []any{c08MBind{"n"}, []any{c08MBind{"m"}, lastLit}}
+	}
+	mkRec := func() any {
+		s := pick(r, []string{"x", "y", "z", "x", "w"})
+		k, j := 1+r.Intn(9), pick(r, []int{7, 7, 2, 3})
+		if chance(r, 0.12) {
+			return pick(r, []any{3, "s", []any{1}, []any{1, 2, 3, 4}, []any{}}) // no array / another length
+		}
+		switch shape {
+		case 0:
+			if chance(r, 0.15) {
+				return []any{k, j} // fails on the type of the last element
+			}
+			return []any{k, s}
+		case 1:
+			return []any{k, j, s}
+		case 2:
+			return []any{[]any{k, j}, s}
+		}
+		return []any{k, []any{j, s}}
+	}
+	nrec := 2 + r.Intn(5)
+	recs := make([]any, nrec)
+	for i := range recs {
+		recs[i] = mkRec()
+	}
+	// the second alternative / case
+	body := pick(r, c08MBodies)
+	exprArm := chance(r, 0.2) // `=> n + 1`, its value printed
+	second := r.Intn(5)
+	// 4: ONE case `[n, "x"], other => B` whose body only reads: n is the element when the array alternative matched, else the outer n
+	if second == 4 {
+		exprArm = false
+		body = pick(r, []c08MBody{c08MBodies[3], {"{ print \"B\", n }", func(n, m *int, o *strings.Builder) { fmt.Fprintf(o, "B %d\n", *n) }}})
+	}
+	// 0: other => B; 1: a second array alternative in the first case, then other => B; 2: [a, b..] => B, _ => B; 3: null, other => B
+	// (a number or string literal compared with an array subject is a runtime error)
+	var alt2 any
+	if second == 1 {
+		alt2 = []any{c08MBind{"n"}, "z"}
+		switch shape {
+		case 1:
+			alt2 = []any{c08MBind{"n"}, c08MBind{"m"}, "z"}
+		case 2:
+			alt2 = []any{[]any{c08MBind{"n"}, c08MBind{"m"}}, "z"}
+		case 3:
+			alt2 = []any{c08MBind{"n"}, []any{c08MBind{"m"}, "z"}}
+		}
+	}
+	var generic any // pattern with other names, same shape
+	switch shape {
+	case 0:
+		generic = []any{c08MBind{"a"}, c08MBind{"b"}}
+	case 1:
+		generic = []any{c08MBind{"a"}, c08MBind{"b"}, c08MBind{"c"}}
+	case 2:
+		generic = []any{[]any{c08MBind{"a"}, c08MBind{"b"}}, c08MBind{"c"}}
+	default:
+		generic = []any{c08MBind{"a"}, []any{c08MBind{"b"}, c08MBind{"c"}}}
+	}
+	arm := body.text
+	if exprArm {
+		arm = "n * 100 + m"
+	}
+	first := c08MPatText(pat)
+	if alt2 != nil {
+		first += ", " + c08MPatText(alt2)
+	}
+	firstArm := "{ print \"M\", n, m }"
+	if exprArm {
+		firstArm = "[n, m]"
+	}
+	var cases []string
+	if second == 4 {
+		cases = append(cases, first+", other => "+arm)
+	} else {
+		cases = append(cases, first+" => "+firstArm)
+	}
+	switch second {
+	case 4:
+	case 0, 1:
+		cases = append(cases, "other => "+arm)
+	case 2:
+		cases = append(cases, c08MPatText(generic)+" => "+arm, "_ => "+arm)
+	default:
+		cases = append(cases, "null, other => "+arm)
+	}
+	outer := r.Intn(4) // 0 global, 1 parameter, 2 for loop variable, 3 for-in loop variable
+	subjKind := r.Intn(2)
+	if outer == 1 {
+		subjKind = 2
+	}
+	subj := []string{"$", "$.p", "rec"}[subjKind]
+	// a block arm ends its case; an expression arm must be followed by a comma (a `[` on the next line would index it)
+	sep := "\n      "
+	if exprArm {
+		sep = ", "
+	}
+	m := "match (" + subj + ") {\n      " + strings.Join(cases, sep) + "\n    }"
+	stmt := m
+	if exprArm {
+		stmt = "v = " + m + "\n    print \"V\", v"
+	}
+	var prog string
+	switch outer {
+	case 0:
+		prog = "BEGIN { n = 5; m = 100 }\n{\n    " + stmt + "\n    print \"A\", n, m\n}\nEND { print \"E\", n, m }\n"
+	case 1:
+		call := pick(r, []string{"f($index + 10, 20, $)", "f($index + 10, 20, $.p)"})
+		if strings.HasSuffix(call, "$.p)") {
+			subjKind = 1 // the records are wrapped
+		} else {
+			subjKind = 0
+		}
+		prog = "function f(n, m, rec) {\n    " + stmt + "\n    return [n, m]\n}\n{ print \"A\", " + call + " }\nEND { print \"E\", n is unknown, m is unknown }\n"
+	case 2:
+		prog = "BEGIN { m = 100 }\n{\n  for (n = 0; n < 2; n++) {\n    " + stmt + "\n    print \"A\", n, m\n  }\n}\nEND { print \"E\", m }\n"
+	default:
+		prog = "BEGIN { m = 100 }\n{\n  for (n in [7, 8]) {\n    " + stmt + "\n    print \"A\", n, m\n  }\n}\nEND { print \"E\", m }\n"
+	}
+	// the expectation
+	var out strings.Builder
+	gn, gm := 5, 100
+	if outer >= 2 {
+		gn = 0
+	}
+	runMatch := func(rec any, n, m *int) {
+		b := map[string]any{}
+		hit := c08MMatch(pat, rec, b)
+		if !hit && alt2 != nil {
+			b = map[string]any{}
+			hit = c08MMatch(alt2, rec, b)
+		}
+		if hit && second == 4 {
+			// the one body, with the pattern's names bound (they shadow the outer ones; the body only reads)
+			bn, bm := b["n"].(int), *m
+			if v, ok := b["m"]; ok {
+				bm = v.(int)
+			}
+			body.run(&bn, &bm, &out)
+			return
+		}
+		if hit {
+			// the bound names shadow the outer ones inside this body only
+			bm := any(*m)
+			if v, ok := b["m"]; ok {
+				bm = v
+			}
+			if exprArm {
+				fmt.Fprintf(&out, "V [%s, %s]\n", c08MJSON(b["n"]), c08MJSON(bm))
+			} else {
+				fmt.Fprintf(&out, "M %s %s\n", c08MShow(b["n"]), c08MShow(bm))
+			}
+			return
+		}
+		if exprArm {
+			fmt.Fprintf(&out, "V %d\n", *n*100+*m)
+			return
+		}
+		body.run(n, m, &out)
+	}
+	for i, rec := range recs {
+		switch outer {
+		case 0:
+			runMatch(rec, &gn, &gm)
+			fmt.Fprintf(&out, "A %d %d\n", gn, gm)
+		case 1:
+			pn, pm := i+10, 20
+			runMatch(rec, &pn, &pm)
+			fmt.Fprintf(&out, "A [%d, %d]\n", pn, pm)
+		case 2:
+			for gn = 0; gn < 2; gn++ {
+				runMatch(rec, &gn, &gm)
+				fmt.Fprintf(&out, "A %d %d\n", gn, gm)
+			}
+		default:
+			for _, v := range []int{7, 8} {
+				gn = v
+				runMatch(rec, &gn, &gm)
+				fmt.Fprintf(&out, "A %d %d\n", gn, gm)
+			}
+		}
+	}
+	switch outer {
+	case 0:
+		fmt.Fprintf(&out, "E %d %d\n", gn, gm)
+	case 1:
+		out.WriteString("E true true\n")
+	default:
+		fmt.Fprintf(&out, "E %d\n", gm)
+	}
+	parts := make([]string, len(recs))
+	for i, rec := range recs {
+		parts[i] = c08MJSON(rec)
+		if subjKind == 1 {
+			parts[i] = `{"p":` + parts[i] + `,"q":1}`
+		}
+	}
+	doc := []byte("[" + strings.Join(parts, ",") + "]")
+	exact := c08OutOracle(out.String(), "ok")
+	emit(Case{Req: RunReq(prog, nil, []File{{Name: "in.json", Data: doc}}, true), Fields: []string{"class", "out", "depth", "json"},
+		Meta: metaProg(prog, "input", string(doc), "row", []string{"global", "parameter", "for variable", "for-in variable"}[outer]),
+		Oracle: func(i Resp) string {
+			if w := exact(i); w != "" {
+				return w
+			}
+			same, err := c09SameJSON(i.Bytes("json"), doc)
+			if err != nil {
+				return "-o is not valid JSON: " + err.Error()
+			}
+			if !same {
+				return "the program never assigns to the document, yet -o differs from the input (a name bound by a case that did not match was still bound): " + short(string(i.Bytes("json")))
+			}
+			return ""
+		}})
+}
+
+func init() {
+	register(Family{
+		Name: "match-failed-array-case", Prop: "C08",
+		Rule: "a match whose FIRST case is an array pattern ([n, \"x\"], [n, m, \"x\"], [n, 7, \"x\"], [[n, m], \"x\"], [n, [m, \"x\"]]) that binds n (and m) from its first elements and fails on a LATER element of a subject of the same length and shape, followed by a second array alternative in the same case, an identifier case, a `null, other` case or an array pattern with other names plus `_` (or the array pattern and an identifier as alternatives of ONE case with a reading body), whose body (8 block bodies, or an expression arm) reads and assigns the OUTER n and m: globals set in BEGIN, parameters of the enclosing function, the variable of a for loop, the variable of a for-in loop; subject $, $.p or a parameter; 2-6 records (matching, failing on the last element's value or type, not arrays, other lengths); after every match the outer variables are printed, END prints them again. Oracle (implementation only): the exact output computed in Go (names bound by a pattern exist only in the body of the case that matched), depth 0, and the -o document equals the input; model comparison on class, out, depth and the -o document",
+		Gen: func(r *rand.Rand, tier string, emit func(Case)) {
+			prog := "BEGIN { n = 0 }\n{\n  match ($) {\n    [n, \"x\"] => { print \"x-record\", n }\n    other => { n = n + 1 }\n  }\n}\nEND { print \"others:\", n }\n"
+			doc := []byte(`[[5,"y"],[6,"x"],[7,"z"],3]`)
+			emit(Case{Req: RunReq(prog, nil, []File{{Name: "in.json", Data: doc}}, true), Fields: []string{"class", "out", "depth", "json"},
+				Meta: metaProg(prog, "input", string(doc)), Oracle: c08OutOracle("x-record 6\nothers: 3\n", "ok")})
+			for i, n := 0, tierN(tier, 3000, 40000); i < n; i++ {
+				c08MatchFailed(r, emit)
 			}
 		},
 	})
